@@ -255,7 +255,15 @@ func VerifC03_Templates() {
 	vx.Key("chunking", mode)
 	vx.Key("ref", want.KindName())
 	vx.Key("bom", want.BOM)
-	compare(frontEnds(buf, chunks, valid), valid)
+	outs := frontEnds(buf, chunks, valid)
+	compare(outs, valid)
+	// C01 on inputs longer than the exhaustive harness reaches: every strict
+	// front-end accepts the text iff the reference recogniser does
+	for _, o := range outs {
+		if !o.pan && o.name != "sen.Parse" {
+			vx.Assert("accept-iff-valid:"+o.name, (o.err == nil) == valid)
+		}
+	}
 	sf := senFamily(buf, chunks)
 	base := sf[0]
 	vx.Assert("no-panic:"+base.name, !base.pan)
